@@ -173,6 +173,13 @@ def cliVerdict (container : String) (cols : List String) (recs : List Rec) (ss p
         else out == String.ofList o.stdout
       if cls == "OK" && outOk && summary == modelSummary && errkind == "-" then
         pure (.ok s!"{p}-cli-{container}-ok-{if project.isSome then "proj" else "noproj"}-{if o.summary.isSome then "skips" else "noskips"}")
+      else if cls == "OK" && outOk && errkind == "-" && summary.startsWith "?" && o.summary.isSome then
+        -- the run is right as far as stdout and status go; its summary line is worded in a way the harness does not know: accepted when
+        -- the first number on it is the number of skipped sites (all C10 asks of it), not comparable otherwise
+        let nums := (((summary.drop 1).toString.replace "/" ",").splitOn ",").filterMap String.toNat?
+        if nums.head? == o.summary.map (·.1) then
+          pure (.ok s!"{p}-cli-{container}-ok-{if project.isSome then "proj" else "noproj"}-skips-reworded")
+        else pure (.differs s!"summary line not recognised (expected {modelSummary})")
       else pure (.bad modelDescr)
     else
       -- failing run: non-zero exit, diagnosed, and nothing on stdout
@@ -185,8 +192,19 @@ def cliVerdict (container : String) (cols : List String) (recs : List Rec) (ss p
              | none => false)
         | none, some (.strict c pp) => errkind == "strict" && errsite == s!"{c}:{pp}"
         | none, none => false
+      -- an error in a wording the harness does not know: a site-naming error is accepted when it names the right site (that is all the
+      -- properties ask of it); an unrecognised build error cannot be compared
+      let siteOnlyOk := errkind == "site?" && (match o.buildErr, o.err with
+        | none, some (.genotypeError c pp) => (match cfg? with
+            | some cfg => firstBadIsCorrupt cfg args.strict recs || errsite == s!"{c}:{pp}"
+            | none => false)
+        | none, some (.strict c pp) => errsite == s!"{c}:{pp}"
+        | _, _ => false)
       if cls == "ERR" && out == "-" && kindOk then
         pure (.ok s!"{p}-cli-{container}-err-{match o.buildErr, o.err with | some _, _ => "build" | _, some (.strict _ _) => "strict" | _, some (.genotypeError _ _) => "genotype" | _, _ => "?"}")
+      else if cls == "ERR" && out == "-" && siteOnlyOk then pure (.ok s!"{p}-cli-{container}-err-site-only")
+      else if cls == "ERR" && out == "-" && o.buildErr.isSome && errkind.startsWith "build:other" then
+        pure (.differs "build error in a wording the harness does not recognise")
       else pure (.bad modelDescr)
 
 def handleCli (a : List String) (impl : String) (p : String) : Option Verdict :=
